@@ -61,6 +61,7 @@ Next == \/ \E n \in 0..MaxN, s \in {"null", "data"} : PackBytes(n, s) \/ UnpackB
         \/ \E v \in V32 : PackS32le(v) \/ PackU32le(v)
         \/ UnpackChar \/ UnpackS8 \/ UnpackU8 \/ UnpackU16le \/ UnpackU32le \/ Rewind
 Spec == Init /\ [][Next]_vars
+InitSim == Init /\ size = MaxSize        \* simulation configuration: one buffer size, long operation sequences
 Bound == nops < MaxOps
 
 -----------------------------------------------------------------------------
